@@ -108,6 +108,7 @@ func runE1Case(r *verifkit.Run, pf e1Profile, id string, rng *rand.Rand) map[str
 	}
 	defer n.stop()
 	n.useMappers = pf.prop == "C09"
+	n.dstMode = int(uint64(nVals+profile)+w.initH) % 3
 	g := newGen(n, rng)
 	g.attackWeight = pf.attackWeight
 	mo := newMonitors(n)
